@@ -9,7 +9,8 @@ def part(name, pkg, run, files, **kw):
 FX_EXTRA = {"pkg/executor": ["zz_verif_seam.go"], "pkg/schedule_manager": ["zz_verif_seam.go"]}
 FX_INSTR = {"files": [
     {"path": "pkg/executor/executor.go", "calls": {"e.cmd.Run": "@zzCmdRun", "e.cmd.Output": "@zzCmdOutput"}},
-    {"path": "pkg/shell-operator/operator.go", "calls": {"tqs.NewNamedQueue": "@zzNewNamedQueue", "op.TaskQueues.NewNamedQueue": "@zzNewNamedQueue"}},
+    {"path": "pkg/shell-operator/operator.go", "calls": {"tqs.NewNamedQueue": "@zzNewNamedQueue", "op.TaskQueues.NewNamedQueue": "@zzNewNamedQueue",
+                                                        "op.AdmissionWebhookManager.Start": "@zzNoopAdmStart", "op.ConversionWebhookManager.Start": "@zzNoopConvStart"}},
 ]}
 
 # kube events manager under the scheduler: locks/channels/goroutines/racy flags are scheduling
@@ -30,7 +31,8 @@ OP_INSTR = {"files": KEM_INSTR + [
     {"path": "pkg/executor/executor.go", "calls": {"e.cmd.Run": "@zzCmdRun", "e.cmd.Output": "@zzCmdOutput"}},
     {"path": "pkg/shell-operator/operator.go", "time": True, "conc": True,
      "calls": {"tqs.NewNamedQueue": "@zzNewNamedQueue", "op.TaskQueues.NewNamedQueue": "@zzNewNamedQueue",
-               "op.APIServer.Start": "@zzNoopAPIStart", "op.runMetrics": "@zzNoopRunMetrics", "op.ScheduleManager.Start": "@zzNoopSchedStart"}},
+               "op.APIServer.Start": "@zzNoopAPIStart", "op.runMetrics": "@zzNoopRunMetrics", "op.ScheduleManager.Start": "@zzNoopSchedStart",
+               "op.AdmissionWebhookManager.Start": "@zzNoopAdmStart", "op.ConversionWebhookManager.Start": "@zzNoopConvStart"}},
     {"path": "pkg/shell-operator/manager_events_handler.go", "conc": True},
     {"path": "pkg/task/queue/task_queue.go", "sync": True, "time": True, "conc": True, "touch": ["started"]},
     {"path": "pkg/task/queue/queue_set.go", "sync": True, "time": True, "conc": True},
@@ -225,6 +227,18 @@ CHECKS = {
         "rule": "product enumeration of document streams x {absent, present}; non-trivial = more than one document; distinct = distinct (final cluster, error)",
         "parts": [
             part("c13", "pkg/kube/object_patch", "TestVerifC13", ["zz_verif_c13_test.go"], shards={"quick": 16, "thorough": 16}),
+        ],
+    },
+    "C14": {
+        "level": "model_checking",
+        "engine": "E2",
+        "technique": "exhaustive enumeration of (binding set, request path, body, hook outcome) through the real admission handler and operator event handler",
+        "level_text": "The operator's own initValidatingWebhookManager runs (TLS server start behind a no-op seam); requests are served by the real chi router, handler and admission event handler (task creation, taskHandler, Hook.Run with the stand-in process writing the real response file). Enumerated: 3 binding sets over two hooks (validating + mutating, names colliding after URL sanitising) x every registered path, unknown webhook, unknown configuration and malformed paths x {valid review, no request, garbage} x 16 hook outcomes (exit 0/1 x empty, garbage, wrong type, allow, allow+warnings, deny+message, deny, allow+patch). Oracle: allowed=true only when the addressed hook ran, exited 0 and wrote a valid allow; UID echoed; warnings, denial message and patch (with patchType JSONPatch iff patch) relayed; the hook and binding that ran registered that path.",
+        "level_note": "Trusted: net/http/httptest, chi, the stand-in (it writes the scripted bytes into the real response file, parsing stays real). Registration of webhook configurations in the cluster is outside the property.",
+        "rule": "product enumeration; non-trivial = anything but a plain valid allow; distinct = distinct answer",
+        "parts": [
+            part("c14", "pkg/shell-operator", "TestVerifC14", ["zz_verif_c14_test.go", "zz_verif_fixture_test.go"], shards={"quick": 12, "thorough": 16},
+                 extra=FX_EXTRA, instrument=FX_INSTR),
         ],
     },
 }
